@@ -12,6 +12,9 @@ Lib == ("i" :> S2B("<{{ x }}|{{ y }}>")) @@ ("e" :> S2B("E[{% block eb %}d{{ x }
        @@ ("lib" :> S2B("{% macro m1(a) %}m1({{ a }}){% endmacro %}{% macro m2(a, b) %}m2({{ a }},{{ b }}){% endmacro %}"))
        @@ ("u" :> S2B("{% block ub %}UB{{ x }}{% endblock %}{% block uc %}UC{% endblock %}"))
        @@ ("base" :> S2B("^{% block a %}Ba{% endblock %}|{% block b %}Bb{% endblock %}$"))
+       @@ ("base2" :> S2B("{% block sidebar %}base-sidebar{% endblock %}/{% block box %}base-box{% endblock %}/{% block main %}{% endblock %}"))
+       @@ ("mid2" :> S2B("{% extends 'base2' %}{% block sidebar %}mid({{ parent() }}){% endblock %}"))
+       @@ ("up" :> S2B("{% block box %}[box:{{ parent() }}]{% endblock %}"))
 Ctx == ("x" :> Str(S2B("q"))) @@ ("y" :> IntV(2)) @@ ("h" :> Hash(<< <<S2B("x"), IntV(7)>> >>)) @@ ("t" :> Bool(TRUE)) @@ ("name" :> Str(S2B("i")))
        @@ ("arr" :> Arr(<<IntV(1), IntV(2), IntV(3)>>))
 
@@ -45,7 +48,18 @@ Sources == <<
   C("C06", "{% for v in arr %}{{ v }}{% endfor %}"), C("C06", "{% for k, v in arr %}{{ k }}={{ v }};{% endfor %}"), C("C06", "{% for k , v in h %}{{ k }}={{ v }};{% endfor %}"),
   C("C06", "{% for v in arr if v > 1 %}{{ v }}{{ loop.index }}{% endfor %}"), C("C06", "{% for v in [] %}x{% else %}E{% endfor %}"), C("C06", "{% for v in 1..3 %}{{ v }}{% endfor %}"),
   C("C06", "{% for v in arr if v is odd %}{{ v }}{% else %}E{% endfor %}"), C("C06", "{% if x %}A{% elseif y %}B{% else %}C{% endif %}"), C("C06", "{% if not x %}A{% elseif y > 1 %}B{% elseif t %}D{% endif %}"),
-  C("C06", "{% if x is divisible by(2) %}A{% else %}{% if y is divisible by(2) %}B{% endif %}C{% endif %}")
+  C("C06", "{% if x is divisible by(2) %}A{% else %}{% if y is divisible by(2) %}B{% endif %}C{% endif %}"),
+  (* conditions that are literals, in every spelling: the branch is chosen by the value, a zero is a zero however it is written *)
+  C("C06", "{% if 0.0 %}yes{% else %}no{% endif %}"), C("C06", "{% if 00 %}y{% else %}n{% endif %}"), C("C06", "{% if 0.00 %}A{% elseif 0.5 %}B{% else %}C{% endif %}"),
+  C("C06", "{% for i in 1..3 %}{% if 0.0 %}A{% elseif i > 1 %}B{% else %}C{% endif %}{% endfor %}"), C("C06", "{% if 0 %}A{% elseif 000 %}B{% elseif 007 %}C{% else %}D{% endif %}"),
+  C("C06", "{% if '' %}A{% elseif 'a' %}B{% endif %}|{% if null %}A{% elseif false %}B{% elseif true %}C{% endif %}|{% if (0.0) %}A{% elseif 1 %}B{% endif %}"),
+  C("C06", "{% if 0.25 %}A{% endif %}{% if 1.0 %}B{% endif %}{% if 0.50 %}C{% endif %}{% if 10 %}D{% endif %}"),
+  C("C06", "{% for v in arr if 0.0 %}{{ v }}{% else %}E{% endfor %}{% for v in arr if 1 %}{{ v }}{% endfor %}{{ 0.0 ? 'a' : 'b' }}{{ 00 ? 'a' : 'b' }}"),
+  (* a block reached by block(alias): parent() inside it climbs the chain of the name it was reached by *)
+  C("C09", "{% extends 'base2' %}{% use 'up' with box as sidebar %}{% block main %}{{ block('sidebar') }}{% endblock %}"),
+  C("C09", "{% extends 'base2' %}{% use 'up' with box as sidebar %}"),
+  C("C09", "{% extends 'mid2' %}{% use 'up' with box as sidebar %}{% block main %}{{ block('sidebar') }}|{{ block('box') }}{% endblock %}"),
+  C("C09", "{% extends 'base2' %}{% use 'up' %}{% block main %}{{ block('box') }}{% endblock %}")
 >>
 Picked == 1..Len(Sources)
 Init == GenInit(v_lvl, v_idx)
